@@ -185,6 +185,7 @@ structure Inv (w : W) : Prop where
 structure Rel (w w' : W) : Prop where
   closing : ∀ id c, findConn w id = some c → c.closing = true →
       ∃ c', findConn w' id = some c' ∧ c'.closing = true
+  owner : ∀ id c o, findConn w id = some c → c.closing = true → w.inter o = some id → w'.inter o = some id
   ulen : w'.users.map List.length = w.users.map List.length
   mode : w'.mode = w.mode
   ctx : w'.ctxDepth = w.ctxDepth
@@ -198,13 +199,16 @@ structure CRel (w w' : W) : Prop where
 def Step (w w' : W) : Prop := Inv w → Inv w' ∧ Rel w w'
 def CStep (w w' : W) : Prop := Inv w → Inv w' ∧ CRel w w'
 
-theorem Rel.refl (w : W) : Rel w w := ⟨fun _ c h hc => ⟨c, h, hc⟩, rfl, rfl, rfl⟩
+theorem Rel.refl (w : W) : Rel w w := ⟨fun _ c h hc => ⟨c, h, hc⟩, fun _ _ _ _ _ h => h, rfl, rfl, rfl⟩
 
 theorem Rel.trans {a b c : W} (h1 : Rel a b) (h2 : Rel b c) : Rel a c := by
-  refine ⟨?_, by rw [h2.ulen, h1.ulen], by rw [h2.mode, h1.mode], by rw [h2.ctx, h1.ctx]⟩
-  intro id x hx hc
-  obtain ⟨y, hy, hyc⟩ := h1.closing id x hx hc
-  exact h2.closing id y hy hyc
+  refine ⟨?_, ?_, by rw [h2.ulen, h1.ulen], by rw [h2.mode, h1.mode], by rw [h2.ctx, h1.ctx]⟩
+  · intro id x hx hc
+    obtain ⟨y, hy, hyc⟩ := h1.closing id x hx hc
+    exact h2.closing id y hy hyc
+  · intro id x o hx hc ho
+    obtain ⟨y, hy, hyc⟩ := h1.closing id x hx hc
+    exact h2.owner id y o hy hyc (h1.owner id x o hx hc ho)
 
 theorem CRel.refl (w : W) : CRel w w := ⟨id, rfl, rfl⟩
 
@@ -259,7 +263,7 @@ theorem findConn_congr {w w' : W} (h : w'.users = w.users) (id : Nat) : findConn
 theorem Same.step {w w' : W} (h : Same w w') : Step w w' := by
   intro i
   refine ⟨⟨by rw [h.crashed]; exact i.crashed, by rw [h.inError]; exact i.inError, by rw [h.inMeh]; exact i.inMeh,
-      ?_, ?_, ?_, ?_, ?_, ?_⟩, ?_, by rw [h.users], h.mode, h.ctx⟩
+      ?_, ?_, ?_, ?_, ?_, ?_⟩, ?_, ?_, by rw [h.users], h.mode, h.ctx⟩
   · intro o id ho; rw [findConn_congr h.users]; rw [h.inter] at ho; exact i.live o id ho
   · intro o o' id h1 h2; rw [h.inter] at h1 h2; exact i.inj o o' id h1 h2
   · intro l hl; rw [h.users] at hl; exact i.len l hl
@@ -267,22 +271,24 @@ theorem Same.step {w w' : W} (h : Same w w') : Step w w' := by
   · intro hn; rw [h.users] at hn; rw [h.nextUser]; exact i.cur0 hn
   · intro id hid; rw [findConn_congr h.users]; rw [h.nextConnId] at hid; exact i.bound id hid
   · intro id c hc hcl; exact ⟨c, by rw [findConn_congr h.users]; exact hc, hcl⟩
+  · intro id c o _ _ ho; rw [h.inter]; exact ho
 
 /-- the invariant does not look at the context depth -/
 theorem Inv.ctx_irrel {w : W} (i : Inv w) (n : Nat) : Inv { w with ctxDepth := n } :=
   ⟨i.crashed, i.inError, i.inMeh, i.live, i.inj, i.len, i.cur, i.cur0, i.bound⟩
 
 /-- push / pop of an error context around a step -/
-theorem Step.bracket {w w2 : W} (h : Step { w with ctxDepth := w.ctxDepth + 1 } w2) :
-    Step w { w2 with ctxDepth := w2.ctxDepth - 1 } := by
+theorem Step.bracket {w w2 : W} (h : Step (pushCtx w) w2) : Step w (popCtx w2) := by
   intro i
   obtain ⟨i2, r⟩ := h (i.ctx_irrel _)
-  refine ⟨i2.ctx_irrel _, ?_, r.ulen, r.mode, ?_⟩
+  refine ⟨i2.ctx_irrel _, ?_, ?_, r.ulen, r.mode, ?_⟩
   · intro id c hc hcl
     exact r.closing id c hc hcl
+  · intro id c o hc hcl ho
+    exact r.owner id c o hc hcl ho
   · show w2.ctxDepth - 1 = w.ctxDepth
     have := r.ctx
-    simp only at this
+    have e : (pushCtx w).ctxDepth = w.ctxDepth + 1 := rfl
     omega
 
 end NV.C09
